@@ -52,6 +52,8 @@ type EditLine struct {
 	Stmt         int  // ordinal of the top-level statement it was written in
 	InBlock      bool
 	BlockComment bool // its block has a leading comment
+	// SuffixNote is the text of the end-of-line comment apart from the "indirect" marker (empty: none).
+	SuffixNote string
 }
 
 // EditFile is a generated starting file.
@@ -171,14 +173,31 @@ func (g *editGen) group(verb string, n int, bare bool, mk func() editSpec) {
 				g.f.ReqStmts++
 			}
 		}
+		// Some end-of-line comments of require lines merely START with the word "indirect": only
+		// "// indirect" alone or a "// indirect;" prefix is the marker.
+		note := ""
+		if l.TagS {
+			note = fmt.Sprintf("s%d", l.UID)
+			if verb == "require" {
+				switch r.IntN(8) {
+				case 0:
+					note = fmt.Sprintf("indirect dependency of q, pinned s%d", l.UID)
+				case 1:
+					note = fmt.Sprintf("indirectly s%d", l.UID)
+				case 2:
+					note = fmt.Sprintf("was indirect; s%d", l.UID)
+				}
+			}
+		}
 		switch {
 		case sp.indirect && l.TagS:
-			fmt.Fprintf(&g.b, " // indirect; s%d", l.UID)
+			fmt.Fprintf(&g.b, " // indirect; %s", note)
 		case sp.indirect:
 			g.b.WriteString(" // indirect")
 		case l.TagS:
-			fmt.Fprintf(&g.b, " // s%d", l.UID)
+			fmt.Fprintf(&g.b, " // %s", note)
 		}
+		l.SuffixNote = note
 		g.b.WriteString("\n")
 		if !block {
 			g.stmt++
